@@ -71,15 +71,21 @@ def prop_C11(tier, seed, rng):
     s2 = part_gen.generate("c11", 600 if quick else 12000, seed)
     s3 = part_gen.generate("c12dense", 300 if quick else 6000, seed + 14)
     s4 = part_gen.generate("boundary", 72 if quick else 100000, seed + 16)
+    s5 = part_gen.generate("c11pairs", 1500 if quick else 100000, seed + 18)
     fams = [Family("tlc", "part", "PartTrace", s1, g1), Family("shaped", "part", "PartTrace", s2),
-            Family("dense", "part", "PartTrace", s3), Family("boundary", "part", "PartTrace", s4)]
+            Family("dense", "part", "PartTrace", s3), Family("boundary", "part", "PartTrace", s4),
+            Family("pairs", "part", "PartTrace", s5)]
     return design, fams, ["C11_"], dict(
         rule="scripts = (a) one per transition of the bounded PartTree.tla state graph (TLC BFS+VIEW), "
              "(b) shaped random histories (fan-outs across 4/16/48/256, chains, binary keys, branching, clones, "
              "iterators inside transactions, abandoned transactions), (c) enumerated node-boundary scripts: a node "
              "with 2..50 children (around the 4/16/48 thresholds, branch bytes 0x00/0xff included), with or "
              "without its own value, loses its first/middle/last child and gets it back, every key read from the "
-             "transaction, the new and the old tree; non-trivial = script re-reads a retained "
+             "transaction, the new and the old tree, (d) pairs: every initial subset of a 6-key universe with a "
+             "fork below a valued inner node x every ordered pair of writes (insert/delete/modify) in one transaction "
+             "without a query in between x {commit, abandon, clone after the first write and continue in a "
+             "transaction of the clone}, the older trees re-read afterwards (sampled in the quick tier); "
+             "non-trivial = script re-reads a retained "
              "tree/clone/iterator after a later write of a transaction derived from it",
         nontrivial=lambda ops: _c11_nontrivial(ops),
         assumptions=["Notify is issued only along a linear history (DESIGN 9); C11 scripts branch with Commit only",
@@ -282,6 +288,10 @@ def sched_families(tier, seed, rng, prop, n_random_q, n_random_t, n_tlc_q, n_tlc
     fams.append(Family("sched-gc", "sched", "SchedTrace",
                        sched_gen.generate_gcblock(max(40, (n_random_q if quick else n_random_t) // 3), seed * 47 + int(prop[1:])),
                        env={"VERIF_FLUSH": "1"}))
+    if prop in ("C05", "C10"):
+        fams.append(Family("sched-many", "sched", "SchedTrace",
+                           sched_gen.generate_manytables(16 if quick else 200, seed * 53 + int(prop[1:])),
+                           env={"VERIF_FLUSH": "1"}))
     cfg = "GenDBImpl2.cfg" if quick else "GenDBImpl3.cfg"
     r = core.tlc("GenDBImpl", cfg=cfg, subdir="gen", workers=1, heap="6g", timeout=1500)
     if not r["ok"]:
@@ -415,14 +425,16 @@ PROPS = {
                     "shaped sequential histories over tables with primary, unique, multi-key non-unique, unique and "
                     "non-unique LPM indexes; snapshots are retained and the same queries re-issued after later "
                     "committed/aborted/pending transactions and graveyard collection; non-trivial = script re-queries "
-                    "a retained snapshot after a later write transaction", _nt_requery,
-                    extra_modes=(("c07", 100, 2000), ("lpmshared", 150, 3000), ("stress", 0, 0))),
+                    "a retained snapshot after a later write transaction; family c01dense: dense primary keys (all strings "
+                    "over two letters up to length 3), 2-3 writes per transaction with no query in between, half of them "
+                    "touching a key and then deleting it, every earlier snapshot re-read key by key", _nt_requery,
+                    extra_modes=(("c07", 100, 2000), ("lpmshared", 150, 3000), ("c01dense", 150, 3000), ("stress", 0, 0))),
     "C02": _db_prop("C02", "c02", 300, 6000,
                     "histories in which about half of the write transactions (with writes on every index kind, "
                     "Changes(), initializer registration, InsertWatch) abort; the complete query battery, revisions, "
                     "channel bits and later transactions are compared with the pre-transaction state; non-trivial = "
                     "script contains an aborted transaction followed by the battery", _nt_abort,
-                    extra_modes=(("c07", 150, 3000), ("c19", 100, 2000), ("lpmshared", 100, 2000), ("sched", 150, 3000), ("stress", 0, 0))),
+                    extra_modes=(("c07", 150, 3000), ("c19", 100, 2000), ("lpmshared", 100, 2000), ("c02dense", 120, 2500), ("sched", 150, 3000), ("stress", 0, 0))),
     "C03": _db_prop("C03", "c03", 400, 8000,
                     "Insert/InsertWatch/Modify/Delete/DeleteAll/CompareAndSwap/CompareAndDelete with guards "
                     "{current, stale, future}, missing and present objects, tables not held, finished transactions; "
